@@ -452,9 +452,75 @@ func (c *Ctx) c15ReplayRegister(hubFns []*ssa.Function, fHist, fList *types.Var)
 		})
 		return at
 	}
+	// fromHistory: a ring node reached from Hub.history (the field itself, a copy, Next() of
+	// such a node, a cursor phi over them)
+	var fromHistory func(v ssa.Value, depth int) bool
+	fromHistory = func(v ssa.Value, depth int) bool {
+		if depth > 6 {
+			return false
+		}
+		if eng.SameField(eng.LoadedField(v), fHist) {
+			return true
+		}
+		switch x := v.(type) {
+		case *ssa.Phi:
+			for _, e := range x.Edges {
+				if e != v && fromHistory(e, depth+1) {
+					return true
+				}
+			}
+		case *ssa.Call:
+			if eng.CalleeName(x.Common()) == "(*container/ring.Ring).Next" || eng.CalleeName(x.Common()) == "(*container/ring.Ring).Prev" {
+				return fromHistory(x.Call.Args[0], depth+1)
+			}
+		case *ssa.UnOp:
+			if cell := eng.CellOf(x.X); cell != nil {
+				for _, st := range eng.CellStores(cell) {
+					if fromHistory(st.Val, depth+1) {
+						return true
+					}
+				}
+			}
+		}
+		return false
+	}
 	isReplay := func(in ssa.Instruction) bool {
 		call, ok := in.(*ssa.Call)
-		return ok && eng.CalleeName(call.Common()) == "(*container/ring.Ring).Do" && eng.SameField(eng.LoadedField(call.Call.Args[0]), fHist)
+		if !ok {
+			return false
+		}
+		if eng.CalleeName(call.Common()) == "(*container/ring.Ring).Do" && eng.SameField(eng.LoadedField(call.Call.Args[0]), fHist) {
+			return true
+		}
+		// an explicit walk: a Listener method called with the Value of a history node
+		if !call.Call.IsInvoke() {
+			return false
+		}
+		for _, a := range call.Call.Args {
+			v := a
+			for i := 0; i < 4; i++ {
+				switch x := v.(type) {
+				case *ssa.TypeAssert:
+					v = x.X
+					continue
+				case *ssa.MakeInterface:
+					v = x.X
+					continue
+				case *ssa.Extract:
+					if ta, ok := x.Tuple.(*ssa.TypeAssert); ok {
+						v = ta.X
+						continue
+					}
+				}
+				break
+			}
+			if u, ok := v.(*ssa.UnOp); ok {
+				if fa, ok := u.X.(*ssa.FieldAddr); ok && eng.FieldOfAddr(fa) != nil && eng.FieldOfAddr(fa).Name() == "Value" && fromHistory(fa.X, 0) {
+					return true
+				}
+			}
+		}
+		return false
 	}
 	isInsert := func(in ssa.Instruction) bool {
 		mu, ok := in.(*ssa.MapUpdate)
@@ -472,7 +538,9 @@ func (c *Ctx) c15ReplayRegister(hubFns []*ssa.Function, fHist, fList *types.Var)
 		n++
 		cons := shortFn(fn)
 		switch {
-		case rp != nil && ins != nil && eng.Dominates(rp, ins):
+		case rp != nil && ins != nil && rp.Parent() == ins.Parent() && (eng.Dominates(rp, ins) ||
+			(&eng.Search{Target: func(x ssa.Instruction) bool { return x == ins }}).After(rp) != nil &&
+				(&eng.Search{Target: func(x ssa.Instruction) bool { return x == rp }}).After(ins) == nil):
 			r.Ok("C15/ACTOR/replay-register", cons, p.InstrPos(ins), "history replay at %s and registration in one operation", p.InstrPos(rp))
 		case rp != nil && ins != nil:
 			r.Bad("C15/ACTOR/replay-register", cons, p.InstrPos(ins), "the listener is registered before (or independently of) the history replay in the same operation: it can receive a live event before older history entries")
